@@ -93,7 +93,7 @@ impl Utf8Decoder {
         }
     }
 
-    fn consume(&mut self) -> char {
+    fn consume(&mut self) -> Option<char> {
         let result = utf8_decode(&self.buffer[..self.offset]);
         self.reset();
         result
@@ -126,9 +126,14 @@ impl Decoder for Utf8Decoder {
                     return Err(Error::new(ErrorKind::InvalidInput, "utf8 decoder failed"));
                 }
                 Some(state) if UTF8DFA.info(state).is_accepting => {
+                    use std::io::{Error, ErrorKind};
                     self.push(*byte);
                     buf.consume(consume);
-                    return Ok(Some(self.consume()));
+                    // surrogates and values above U+10FFFF are not characters
+                    return match self.consume() {
+                        Some(character) => Ok(Some(character)),
+                        None => Err(Error::new(ErrorKind::InvalidInput, "utf8 decoder failed")),
+                    };
                 }
                 Some(state) => {
                     self.push(*byte);
@@ -922,7 +927,7 @@ impl Matcher for UTF8Matcher {
     }
 
     fn decode(&self, data: &[u8]) -> Option<Self::Item> {
-        Some(utf8_decode(data))
+        utf8_decode(data)
     }
 }
 
@@ -1324,7 +1329,7 @@ fn number_decode(data: &[u8]) -> Option<usize> {
 //
 // NOTE: this function must only be used on a validated buffer
 // containing single UTF8 character.
-fn utf8_decode(slice: &[u8]) -> char {
+fn utf8_decode(slice: &[u8]) -> Option<char> {
     let first = slice[0] as u32;
     let mut code: u32 = match slice.len() {
         1 => first & 127,
@@ -1337,7 +1342,9 @@ fn utf8_decode(slice: &[u8]) -> char {
         code <<= 6;
         code |= (*byte as u32) & 63;
     }
-    unsafe { std::char::from_u32_unchecked(code) }
+    // automata only checks the shape of the sequence, encoded surrogates
+    // and values above U+10FFFF are not valid scalar values
+    std::char::from_u32(code)
 }
 
 #[derive(Debug, Clone, Copy)]
@@ -2130,7 +2137,7 @@ pub mod verif_hooks {
         super::numbers_decode(data, sep)
     }
 
-    pub fn utf8_decode(data: &[u8]) -> char {
+    pub fn utf8_decode(data: &[u8]) -> Option<char> {
         super::utf8_decode(data)
     }
 
